@@ -67,6 +67,12 @@ fn fsync(cfg: &Value) -> FsyncSchedule {
     }
 }
 fn open(cfg: &Value, dir: &PathBuf, inst: &Value) -> std::io::Result<Walrus> {
+    if inst.is_object() && inst["via_env"].as_bool() == Some(true) {
+        // the data directory is selected through WALRUS_DATA_DIR at construction time (keyed constructor)
+        std::env::set_var("WALRUS_DATA_DIR", dir);
+        let key = inst["key"].as_str().unwrap_or("tenant");
+        return Walrus::with_consistency_and_schedule_for_key(key, consistency(cfg), fsync(cfg));
+    }
     let mut b = Walrus::builder().data_dir(dir.clone()).consistency(consistency(cfg)).fsync_schedule(fsync(cfg));
     let key = if inst.is_object() && !inst["key"].is_null() { &inst["key"] } else { &cfg["key"] };
     if let Some(k) = key.as_str() {
